@@ -256,7 +256,7 @@ def run_core(scn, want=("c01", "c02", "c03", "c04", "c05", "c06")):
     expects = []
     stats = {"cmds": 0, "reads": 0, "writes": 0, "partial_sel": 0, "cross_port_same_addr": 0,
              "refreshes": 0, "zqcs": 0, "auto_precharges": 0, "acts": 0, "explicit_pre": 0,
-             "max_cmd_wait": 0, "max_resp_wait": 0}
+             "cmd_wait_cycles_worst": 0, "resp_wait_cycles_worst": 0}
     last_writer = {}
     cyc_box = [0]
     waits = {"cmd": 0, "resp": 0}
@@ -629,8 +629,8 @@ def run_core(scn, want=("c01", "c02", "c03", "c04", "c05", "c06")):
     stats["auto_precharges"] = dram.nauto
     stats["acts"] = dram.ncmd["ACT"]
     stats["explicit_pre"] = dram.ncmd["PRE"]
-    stats["max_cmd_wait"] = 0
-    stats["max_resp_wait"] = 0
+    stats["cmd_wait_cycles_worst"] = waits["cmd"]          # summed over the runs of a batch in the evidence file
+    stats["resp_wait_cycles_worst"] = waits["resp"]
     vs = [v for v in viol.v if v["oracle"].startswith(tuple(want))]
     other = [v for v in viol.v if not v["oracle"].startswith(tuple(want))]
     return {"violations": vs, "other_violations": other, "stats": stats, "cycles": cyc, "sim_ps": sim.now,
